@@ -54,6 +54,15 @@ func planFor(id string) *Plan {
 
 var plans = []Plan{
 	{
+		ID: "C18", Level: "fault_enumeration", ExhaustiveWhenAll: false,
+		Rule: "for each of 13 flows (code redemption with PKCE and OpenID Connect, refresh, refresh-reuse handling, device poll, implicit, hybrid, authorization-code issuance, client credentials, password, JWT bearer, revocation, PAR push, PAR use) the storage-call list of the request is recorded from a fault-free run on the tree under test; then EVERY call index x EVERY failure kind (generic error, not-found, inactive, serialization conflict, crash = the call and everything after never happen, open transaction discarded) x {reference store, transactional store with real rollback} is executed, each followed by an attack step (e.g. redeem without the PKCE verifier, foreign client), a retry by the legitimate holder and a replay; pairs (a second fault in the retry) are sampled by rapid. Oracle: refused responses carry nothing, unexpected failures refuse the request, refresh serialization conflicts are not server_error, Begin/Commit/Rollback grammar, snapshot of all code/token tables equals the pre-request snapshot when the failure is inside the issuing transaction and the retry then succeeds, single-use credentials are exchanged at most once, the attack step stays refused. Non-trivial: the fault index lies inside the issuing transaction, or the fault is followed by a successful retry; distinct by (flow, store, index, kind).",
+		Jobs: []Job{
+			{Test: "TestC18_SingleFaults", Shards: [2]int{16, 16}, Timeout: [2]int{900, 3000}},
+			{Test: "TestC18_FaultPairs", Shards: [2]int{4, 16}, Checks: [2]int{150, 6000}, Timeout: [2]int{900, 3000}},
+		},
+	},
+
+	{
 		ID: "C15", Level: "exploration",
 		Rule: "(A) private_key_jwt client assertions and (B) JWT-bearer grants built from a valid claim set by 0-2 named defects (each claim absent / wrong type / wrong value / boundary time, exp in {0, 0.5, -1, past, string}, alg none / HS256 / RS384 / PS256 / ES256, kid right / absent / unknown, key registered / another client's or subject's / unregistered, scope outside the key's scopes, option flags for optional iat / jti, max duration, client authentication) presented inside short histories with replays of accepted assertions and time advances; oracle: a list of must-refuse reasons derived from the statement - acceptance with a non-empty list is a violation, a defect-free assertion must be accepted; (C) schedules: 2 (exhaustive) or 3 (bounded DFS) simultaneous presentations of the same assertion with the harness owning the order of their storage steps - exactly one succeeds. Non-trivial: an assertion with exactly one must-refuse reason, a replay, or a schedule in which the storage steps of different presentations alternate; distinct by defect lists / storage-step order.",
 		Jobs: []Job{
